@@ -123,6 +123,22 @@ def run(ctx):
                     if isinstance(first, ast.BinOp) and isinstance(first.op, ast.BitOr):
                         marker = ser.ev(first.left)
                 pyrows.append((lo, ci[1] - 1, n, marker))
+                # byte composition: element i is (size >> 8(n-1-i)) [& 0xFF], the first OR-ed with the marker
+                if isinstance(lst, ast.List):
+                    shifts = []
+                    for el in lst.elts:
+                        sh = [x for x in ast.walk(el) if isinstance(x, ast.BinOp) and isinstance(x.op, ast.RShift)]
+                        names = [x for x in ast.walk(el) if isinstance(x, ast.Name) and x.id == var]
+                        if len(sh) == 1 and isinstance(sh[0].left, ast.Name) and sh[0].left.id == var:
+                            shifts.append(ser.ev(sh[0].right))
+                        elif not sh and len(names) == 1:
+                            shifts.append(0)
+                        else:
+                            shifts.append(None)
+                    want = [8 * (n - 1 - i) for i in range(n)]
+                    ck.ob("R28a", f"{SER}::size_blob_for_blob|bytes of the {n}-byte prefix", shifts == want,
+                          f"the {n} prefix bytes are size >> {want} (big-endian), as in the Rust writer (C15 R15a)",
+                          site=f"{SER}:{s.lineno}", detail=shifts)
                 lo = ci[1]
         elif isinstance(s, ast.Raise):
             tail_raise = True
@@ -144,12 +160,19 @@ def run(ctx):
     src = ast.unparse(fn)
     tests = [ast.unparse(n.test) for n in ast.walk(fn) if isinstance(n, ast.If)]
     single = None
+    size1 = False
+    # the byte test may stand alone inside `if size == 1:` or be and-ed with it: look at every comparison under an If
     for n in ast.walk(fn):
-        if isinstance(n, ast.If) and isinstance(n.test, ast.Compare) and isinstance(n.test.left, ast.Subscript):
-            opn = type(n.test.ops[0]).__name__
-            c = ser.ev(n.test.comparators[0])
-            single = (opn, c)
-    ok_single = single in (("LtE", 0x7F), ("Lt", 0x80))
+        if not isinstance(n, ast.If):
+            continue
+        for cmpn in [x for x in ast.walk(n.test) if isinstance(x, ast.Compare)]:
+            if isinstance(cmpn.left, ast.Subscript) and len(cmpn.ops) == 1:
+                single = (type(cmpn.ops[0]).__name__, ser.ev(cmpn.comparators[0]))
+                # the length-is-one condition must hold where the byte is tested: same test (and) or an enclosing If
+                conj = [ast.unparse(v).replace(" ", "") for v in (n.test.values if isinstance(n.test, ast.BoolOp) and isinstance(n.test.op, ast.And) else [])]
+                encl = [ast.unparse(m.test).replace(" ", "") for m in ast.walk(fn) if isinstance(m, ast.If) and any(k is n for k in ast.walk(m)) and m is not n]
+                size1 = any(t in ("size==1", "1==size", "len(as_atom)==1") for t in conj + encl)
+    ok_single = single in (("LtE", 0x7F), ("Lt", 0x80)) and size1
     ck.ob("R28b", f"{SER}::atom_to_byte_iterator|single-byte", ok_single,
           "a one-byte atom is written verbatim iff its byte is < 0x80", site=f"{SER}:{fn.lineno}", detail={"test": single, "ifs": tests})
     empties = [n for n in ast.walk(fn) if isinstance(n, (ast.Yield,)) and isinstance(n.value, ast.Constant) and n.value.value == b"\x80"]
@@ -158,18 +181,10 @@ def run(ctx):
           site=f"{SER}:{fn.lineno}", detail=tests)
 
     # ---- R28c
-    d = cr.fn(c15.DECODE)
+    d, dcaps, _raw = c15.decoder_caps(cr)
     ck.analysed(d)
-    caps = []
-    for b in sorted(d.reachable_blocks()):
-        if d.term(b)["k"] != "switch":
-            continue
-        n = compare_norm(d.switch_cond(b))
-        be = d.bool_edges(b)
-        if n and be and d.is_error_block(be[0]) and len(n[0]) == 1 and n[2] == ">0":
-            caps.append((list(n[0].keys())[0], -n[1]))  # quantity > value  => error
-    rust_size_cap = [v for a, v in caps if "atom_size" in a]
-    rust_plen_cap = [v for a, v in caps if "size_blob" in a]
+    rust_size_cap = [dcaps["size"] - 1] if "size" in dcaps else []      # quantity > value => error
+    rust_plen_cap = [dcaps["prefix"]] if "prefix" in dcaps else []
     if len(rust_size_cap) != 1 or len(rust_plen_cap) != 1:
         raise mir.AnchorMissing("decode_size_with_offset caps not recognised")
     fn = ser.func("_atom_from_stream")
@@ -188,10 +203,10 @@ def run(ctx):
                 py_caps[left] = v
     ck.ob("R28c", f"{SER}::_atom_from_stream|size-cap", py_caps.get("size") == rust_size_cap[0],
           f"sizes > {rust_size_cap[0]:#x} are rejected, as in the Rust decoder", site=f"{SER}:{fn.lineno}",
-          detail={"python": py_caps, "rust": caps})
+          detail={"python": py_caps, "rust": dcaps})
     ck.ob("R28c", f"{SER}::_atom_from_stream|prefix-length-cap", py_caps.get("bit_count") == rust_plen_cap[0],
           f"length prefixes longer than {rust_plen_cap[0]} bytes are rejected, as in the Rust decoder", site=f"{SER}:{fn.lineno}",
-          detail={"python": py_caps, "rust": caps})
+          detail={"python": py_caps, "rust": dcaps})
     ck.ob("R28c", f"{SER}::_atom_from_stream|truncation", trunc >= 2, "a short read of the prefix or of the body raises",
           site=f"{SER}:{fn.lineno}", detail=trunc)
     firsts = []
